@@ -55,6 +55,21 @@ CMD_GET_STATE, CMD_UI_ATT, CMD_SIGNER_AUTH, CMD_GET_MODE, CMD_RETRIES = 0x20, 0x
 CMD_HEARTBEAT, CMD_POWHSM_ATT = 0x60, 0x50
 
 
+def der_ok_t(b):
+    """well-formed DER signature as the device returns it (0x30 | 0x31 quirk of ledger/signature.py)"""
+    n = tm.Len(b)
+
+    def at(i):
+        return tm.Nth(b, i if isinstance(i, tm.T) else tm.Int(i))
+    rl = at(3)
+    return tm.And(tm.Le(tm.Int(2), n), tm.Or(tm.Eq(at(0), tm.Int(0x30)), tm.Eq(at(0), tm.Int(0x31))),
+                  tm.Le(at(1), tm.Sub(n, tm.Int(2))), tm.Le(tm.Int(4), n), tm.Eq(at(2), tm.Int(2)),
+                  tm.Le(rl, tm.Sub(n, tm.Int(4))), tm.Le(tm.Int(2), tm.Sub(tm.Sub(n, tm.Int(4)), rl)),
+                  tm.Eq(at(tm.Add(rl, tm.Int(4))), tm.Int(2)),
+                  tm.Le(at(tm.Add(rl, tm.Int(5))), tm.Sub(tm.Sub(n, tm.Int(6)), rl)),
+                  tm.Le(tm.Int(0), at(1)), tm.Le(tm.Int(0), rl), tm.Le(tm.Int(0), at(tm.Add(rl, tm.Int(5)))))
+
+
 def devwf(apdu, resp):
     """A-DEV-WF as a term over the APDU sent and the response received."""
     n = tm.Len(resp)
@@ -73,7 +88,13 @@ def devwf(apdu, resp):
         tm.Implies(tm.And(tm.Eq(cmd, tm.Int(CMD_GET_STATE)), op_in(0x01)), four),
         tm.Implies(tm.And(tm.Eq(cmd, tm.Int(CMD_UI_ATT)), op_in(0x02, 0x03, 0x04)), four),
         tm.Implies(tm.Eq(cmd, tm.Int(CMD_SIGNER_AUTH)), four),
-        tm.Implies(tm.Eq(cmd, tm.Int(CMD_HEARTBEAT)), tm.TRUE),
+        # heartbeat: the answer to GET (op 2) carries a DER signature
+        tm.Implies(tm.And(tm.Eq(cmd, tm.Int(CMD_HEARTBEAT)), tm.Le(tm.Int(3), tm.Len(apdu)),
+                          tm.Eq(tm.Nth(apdu, tm.Int(2)), tm.Int(2))),
+                   der_ok_t(tm.Extract(resp, tm.Int(3), tm.Sub(n, tm.Int(3))))),
+        # GET_MODE answers one of the three modes the firmware has
+        tm.Implies(tm.Eq(cmd, tm.Int(CMD_GET_MODE)),
+                   tm.Or(*[tm.Eq(tm.Nth(resp, tm.Int(1)), tm.Int(m)) for m in (2, 3, 4)])),
     )
 
 
